@@ -48,8 +48,10 @@ Fixpoint walk (fuel : nat) (st : outcome) (t : tree) : bool :=
     end
   end.
 
-Definition check_tree (cs : Z * Z * tree) : bool :=
-  let '(mb, bk, t) := cs in walk 64 (start mb bk) t.
+(* the subtree below the history that writes `pre` *)
+Definition check_tree (cs : Z * Z * list bytes * tree) : bool :=
+  let '(mb, bk, pre, t) := cs in
+  walk 64 (fold_left step (map Write pre) (start mb bk)) t.
 
 (* several handlers on one path *)
 Definition msnap_ok (st : moutcome) (s : snap) : bool :=
